@@ -166,7 +166,11 @@ def validate_heuristic(wrapper, rec, weight):
     def F(key, what):
         findings.append({"key": key, "what": what, "grade": "violated"})
 
-    W = (np.asarray(weight, dtype=float) + np.asarray(weight, dtype=float).T) / 2
+    Wraw = np.asarray(weight, dtype=float)
+    W = (Wraw + Wraw.T) / 2
+    # a weight that is symmetric only up to rounding (inverse of a regularised Gram matrix) has no single symmetric reading:
+    # the lower triangle mirrored (MOSEK back-end) and (W + W')/2 (cvxpy's trace) differ by at most its asymmetry
+    asym = float(np.max(np.abs(Wraw - Wraw.T))) if Wraw.size else 0.0
     name = type(wrapper).__name__
     if name == "MosekWrapper":
         import mosek
@@ -179,7 +183,7 @@ def validate_heuristic(wrapper, rec, weight):
         C0 = C.get(0, np.zeros_like(W))
         if any(np.any(M != 0) for j, M in C.items() if j != 0):
             F("heuristic_objective_on_lmi_variable:mosek", "the heuristic objective involves an LMI matrix variable")
-        if not _close(C0, W, 1e-9):
+        if not _close(C0, W, 1e-9) and float(np.max(np.abs(C0 - W))) > asym + 1e-9 * (1.0 + float(np.max(np.abs(W)))):
             F("heuristic_weights_wrong:mosek", "the matrix of the heuristic objective differs from the weight W handed to heuristic() by %.3e "
               "(relative %.3e)" % (np.max(np.abs(C0 - W)), np.max(np.abs(C0 - W)) / max(np.max(np.abs(W)), 1e-300)))
     elif name == "CvxpyWrapper":
@@ -191,7 +195,7 @@ def validate_heuristic(wrapper, rec, weight):
         obj = wrapper.prob.objective
         val = float(np.asarray(obj.args[0].value).ravel()[0])
         want = float(np.sum(W * Gv))
-        if type(obj).__name__ != "Minimize" or abs(val - want) > 1e-9 * (1 + abs(want)):
+        if type(obj).__name__ != "Minimize" or abs(val - want) > 1e-9 * (1 + abs(want)) + asym * float(np.sum(np.abs(Gv))):
             F("heuristic_weights_wrong:cvxpy", "the heuristic objective evaluates to %.9g at a random Gram matrix, <W, G> = %.9g" % (val, want))
         if len(wrapper.prob.constraints) != len(wrapper._list_of_solver_constraints) or \
                 any(a is not b for a, b in zip(wrapper.prob.constraints, wrapper._list_of_solver_constraints)):
